@@ -163,6 +163,20 @@ def run_case(case):
                                         calib_width=case["cw"], thresh=case["thresh"],
                                         kernel_width=case["kw"], crop=case["crop"],
                                         output_eigenvalue=True, show_pbar=False)
+        if case["eseed"] % 7 == 2 and not case.get("mi"):
+            # the public crop attribute assigned after construction (it is only needed when the
+            # result is assembled): same maps as with crop given to the constructor
+            app = mr.app.EspiritCalib(ksp, calib_width=case["cw"], thresh=case["thresh"],
+                                      kernel_width=case["kw"], crop=0.123,
+                                      output_eigenvalue=True, show_pbar=False)
+            app.crop = case["crop"]
+            sig += "|crop-assigned"
+        if case["eseed"] % 7 == 4:
+            # the inner algorithm driven by hand with the documented loop (to watch it
+            # converge), then run() for the output: the same maps
+            while not app.alg.done():
+                app.alg.update()
+            sig += "|stepped-by-hand"
         mps, eig = app.run()
         if case["eseed"] % 5 == 2:
             # history: run() once more on the finished calibration: the same maps again
